@@ -20,8 +20,11 @@ def run(res, tier, replay):
     if ok:
         q = tier == "quick"
         base = sweep.repo_cases() + sweep.generated_cases(rng, 2 if q else 20)
-        cases = robust.corpus_cases() + sweep.uninit_cases(rng, 6 if q else 80) + base + sweep.damaged_cases(rng, base, 1 if q else 6)
+        hostile = sweep.uninit_cases(rng, 6 if q else 80)
+        cases = robust.corpus_cases() + hostile + base + sweep.damaged_cases(rng, base, 1 if q else 6)
         n = robust.fill_oracle(res, cases, exe)
+        # small fill values are plausible code lengths / symbols: the hostile inputs are also run with fresh memory holding 4, 5, 6, 8 and 1
+        n += robust.fill_oracle(res, hostile, exe, fills=(0x00, 0x04, 0x05, 0x06, 0x08, 0x01))
         res.oblige("search: %d scenarios give identical transcripts under four allocator fill patterns" % len(cases), n == 0)
         for c in cases: res.nontrivial.add(c.label + str(hash(c.scn.text()))); res.count("case-" + c.label.split(":")[0])
         res.samples = [c.label + " :: " + " | ".join(l for l in c.scn.lines if not l.startswith("file "))[:200] for c in cases[:3]]
